@@ -15,6 +15,15 @@ PROP = "C13"
 NAME_POOLS = V.ADVERSARIAL_NAMES + [["Kita", "D0", "D1", "Plain0", "Tr", "Clone"]]
 
 
+def label_item(lts, rng):
+    """loop / block labels spelled like the block's lifetime parameters: labels and lifetimes share their syntax
+    (`syn::Lifetime`), declaration and jump sites must be rewritten consistently or not at all"""
+    a = sorted(lts)[0]
+    b = sorted(lts)[-1]
+    return (f"fn lbl(n: usize) -> usize {{ let mut i = 0; {a}: loop {{ i += 1; if i > n {{ break {a}; }} }} "
+            f"{b}: for _j in 0..n {{ if i > 1 {{ continue {b}; }} i += 1; }} let r = {a}: {{ if n > 3 {{ break {a} 1; }} 2 }}; i + r }}")
+
+
 def item_text(names, nparams, rng, form=None, fixed=None):
     """an item whose signature and body mention the parameters in many syntactic positions"""
     if nparams == 0:
@@ -54,7 +63,9 @@ def independent_rename(t, ren):
             first = segs[0]
             ident = first[3][0][2][0]
             m = dict(ren["ty"])
-            if k == "Expr::Path":
+            bare = kids2[-2][1] == "None" and len(segs) == 1 and first[3][1][1] == "PathArguments::None" and path[3][0] == tref.N("IgnL", [], [tref.N("None")])
+            if k == "Expr::Path" and bare:
+                # a const parameter is named only by a bare identifier
                 for a, b in ren["co"].items():
                     m.setdefault(a, b)
             if ident in m:
@@ -151,6 +162,9 @@ def run(tier, seed, replay=None):
             elim = {p_ for p_, v_ in mm.theta.items() if not _po(v_[1])}
             live = [p_ for p_ in range(mm.nparams) if p_ not in elim]
             it = item_text([mm.names[p_] for p_ in live], len(live), rng, form, fixed=[m.names[p_] for p_ in live]) if live else ""
+            lts = [re.match(r"'\w+", l_).group(0) for l_ in mm.lifetimes if re.match(r"'\w+", l_)]
+            if lts and form % 2 == 0:
+                it = (it + " " if it else "") + label_item(lts, rng)
             if it and q.mode == "trait":
                 mm.patch = {"add_item": it}
             texts.append((q.block_text(bi), (i, bi), v))
